@@ -254,6 +254,26 @@ func (o *ReclaimOracle) AfterCycle(r *Run, cycle int, all []Decision) {
 				}
 			}
 		}
+		// the validator walks the victims leaf queue by leaf queue (in map order) against the remaining share of the queue
+		// at the level of divergence: any victim job below that queue may have been the last one taken
+		divergence := func(vq string) (string, string) {
+			vChain := chainOf(vq)
+			ar, av := "", ""
+			for x, y := len(rChain)-1, len(vChain)-1; x >= 0 && y >= 0; x, y = x-1, y-1 {
+				ar, av = rChain[x], vChain[y]
+				if ar != av {
+					break
+				}
+			}
+			return ar, av
+		}
+		victimsUnder := map[string][]vec3{}
+		for _, vq := range sortedKeys(victimsByQueue) {
+			if pre.Queues[vq] != nil {
+				_, av := divergence(vq)
+				victimsUnder[av] = append(victimsUnder[av], victimsByQueue[vq]...)
+			}
+		}
 		for _, vq := range sortedKeys(victimsByQueue) {
 			if pre.Queues[vq] == nil {
 				continue
@@ -282,7 +302,7 @@ func (o *ReclaimOracle) AfterCycle(r *Run, cycle int, all []Decision) {
 				}
 			}
 			ok := false
-			for _, v := range victimsByQueue[vq] {
+			for _, v := range victimsUnder[av] {
 				var rem vec3
 				for k := range rem {
 					rem[k] = after[av].all[k] + v[k]
